@@ -133,3 +133,27 @@ for _mv in (True, False):
             params={'value': _spec}, returns='opq:stored', may_raise=['StubException'],
             ensures=[('each-value-converted-once-in-order', f'result == {exp}')])
 SPEC_UFS['conv'] = (('opq',), 'opq')
+
+# ---------------------------------------------------------------------------------------------- the setters themselves (behind the summaries above)
+CONTRACTS['Attribute.value.setter[verified]'] = dict(
+    target='Attribute.value', kind='set', props=['C05'],
+    self_fields={'_value': 'opq:stored', '_multivalued': 'bool', '_multidimensional': 'const:False', '_converter': 'stubfn1'},
+    params={'val': 'opq:uval'}, returns='none', may_raise=['StubException'],
+    ensures=[('stored-value-is-the-converted-value-a-scalar-of-a-multivalued-attribute-becomes-a-one-element-list',
+              'self._value == ([conv(val), ] if self._multivalued else conv(val))')])
+CONTRACTS['Attribute.units.setter[verified]'] = dict(
+    target='Attribute.units', kind='set', props=['C05', 'C17'], self_class='Attribute',
+    self_fields={'_units': 'opq:stored', '_unit_checker': 'stubfn1'}, params={'units': 'opq:uval'}, returns='none',
+    may_raise=['StubException'],
+    ensures=[('units-stored-are-the-checked-units', 'self._units == conv(units)')])
+CONTRACTS['DimensionAttribute.units.setter'] = dict(
+    target='Attribute.units', kind='set', props=['C05'], self_class='DimensionAttribute',
+    self_fields={'_units': 'opq:stored', '_unit_checker': 'stubfn1'}, params={'units': 'opq:uval'}, returns='none',
+    raises={'RuntimeError': 'True'}, ensures=[], exc_ensures=[('units-of-a-unitless-attribute-type-cannot-be-set', 'self._units is old(self._units)')])
+
+# ---------------------------------------------------------------------------------------------- write-time defaults only where nothing was set (C05)
+AV = lambda: {'cls': 'Attribute', 'fields': {'_value': 'opq:stored'}}
+CONTRACTS['OriginItem._run_checks_and_set_defaults'] = dict(
+    props=['C05', 'C14'], self_fields={'name': 'str', 'field_name': AV()}, params={}, returns='none', may_raise=['AnyException'],
+    ensures=[('field-name-given-by-the-user-is-kept', 'implies(old(self.field_name._value) is not None, self.field_name._value is old(self.field_name._value))'),
+             ('documented-default-WILDCAT-only-when-unset', "implies(old(self.field_name._value) is None, self.field_name._value == converted(self.field_name, 'WILDCAT'))")])
